@@ -132,8 +132,6 @@ def eval_layout(case):
         df0['period_consistency'] = compute_period_consistency(df0)
         for ti, thr in enumerate(THR_MENU):
             df = detect_bursts_cycles(df0.copy(), **thr)
-            if not df['is_burst'].any():
-                continue
             for r in REDUCTIONS:
                 thr2 = lowered(thr, r)
                 if any(v < 0 for k, v in thr2.items() if k.endswith('threshold')):
@@ -146,8 +144,9 @@ def eval_layout(case):
                 except Exception as e:      # noqa
                     return VIOL(dict(sgn, kind='raise', exc=type(e).__name__), 'recompute_edges raised %s: %s' % (type(e).__name__, e))
                 nev += 1
-                if fingerprint(df) != fp:
-                    return VIOL(dict(sgn, kind='input-mutated'), 'recompute_edges modified its input table', evals=nev)
+                if fingerprint(df) != fp or out is df:
+                    return VIOL(dict(sgn, kind='input-mutated', had_burst=bool(before['is_burst'].any())),
+                                'recompute_edges modified (or returned) its input table', evals=nev)
                 v, changed, grew = check_edges(before, out, thr2, centre, r == 0, sgn)
                 if v is not None:
                     v['observed'] = {'layout': [list(k) for k in case], 'thr': thr2, 'detail': v.get('observed')}
@@ -177,8 +176,6 @@ def eval_pipeline(case):
     nev, nt, outs = 0, False, []
     for thr in PIPE_THR:
         df = run_cf(sig, o, threshold_kwargs=dict(thr))
-        if not df['is_burst'].any():
-            continue
         for r in (0, .1, .3):
             thr2 = lowered(thr, r)
             if any(v < 0 for k, v in thr2.items() if k.endswith('threshold')):
@@ -188,8 +185,9 @@ def eval_pipeline(case):
             out = recompute_edges(df, dict(thr2))
             nev += 1
             sgn = {'site': 'recompute_edges', 'centre': centre, 'via': 'pipeline'}
-            if fingerprint(df) != fp:
-                return VIOL(dict(sgn, kind='input-mutated'), 'recompute_edges modified its input table')
+            if fingerprint(df) != fp or out is df:
+                return VIOL(dict(sgn, kind='input-mutated', had_burst=bool(before['is_burst'].any())),
+                            'recompute_edges modified (or returned) its input table')
             v, changed, grew = check_edges(before, out, thr2, centre, r == 0, sgn)
             if v is not None:
                 v['observed'] = {'word': w, 'thr': thr2, 'detail': v.get('observed')}
